@@ -154,14 +154,15 @@ func c03RunFunc(b core.Batch, r *core.Recorder) {
 // ---- proxy level ----------------------------------------------------------------------------
 
 type c03res struct {
-	ID     string        `json:"id"`
-	CC     []string      `json:"cache_control"`
-	ExpIn  time.Duration `json:"expires_in_ns"` // 0 = no Expires; <0 garbage marker
-	ExpRaw string        `json:"expires_raw,omitempty"`
-	Ignore bool          `json:"ignore"`
-	Force  bool          `json:"force"`
-	Def    time.Duration `json:"default_ns"`
-	Kind   string        `json:"kind"`
+	ID       string        `json:"id"`
+	CC       []string      `json:"cache_control"`
+	ExpIn    time.Duration `json:"expires_in_ns"` // 0 = no Expires; <0 garbage marker
+	ExpRaw   string        `json:"expires_raw,omitempty"`
+	Ignore   bool          `json:"ignore"`
+	Force    bool          `json:"force"`
+	Def      time.Duration `json:"default_ns"`
+	Kind     string        `json:"kind"`
+	DateSkew time.Duration `json:"origin_date_skew_ns,omitempty"`
 }
 
 type c03world struct {
@@ -196,6 +197,9 @@ func (w *c03world) handler(rw http.ResponseWriter, q *http.Request, rec *rig.Ori
 		rw.Header()["Expires"] = []string{c.ExpRaw}
 	} else if c.ExpIn > 0 {
 		rw.Header().Set("Expires", time.Now().Add(c.ExpIn).UTC().Format(http.TimeFormat))
+	}
+	if c.DateSkew != 0 {
+		rw.Header().Set("Date", time.Now().Add(c.DateSkew).UTC().Format(http.TimeFormat)) // the origin's clock is off
 	}
 	rw.Header().Set("ETag", rig.ETag(3, ver))
 	rw.Header().Set("Content-Type", "application/x-verif")
@@ -238,7 +242,7 @@ func c03RunProxy(b core.Batch, r *core.Recorder) {
 		proxies[i].Cfg.Proxy.CachePolicy.DefaultMaxAge.Overwrite(duration.Duration(p.def))
 		defer proxies[i].Close()
 	}
-	kinds := []string{"max-age=1", "MAX-AGE=1", "public|max-age=2", "expires+2s", "expires+3s", "none", "none", "expires-garbage", "expires-zero", "max-age=1+expires-past", "no-store", "max-age=0"}
+	kinds := []string{"max-age=2+date-ahead", "max-age=2+date-behind", "max-age=1", "MAX-AGE=1", "public|max-age=2", "expires+2s", "expires+3s", "none", "none", "expires-garbage", "expires-zero", "max-age=1+expires-past", "no-store", "max-age=0"}
 	n := b.Int("n", 120)
 	var wg sync.WaitGroup
 	sem := make(chan struct{}, b.Int("parallel", 40))
@@ -251,6 +255,10 @@ func c03RunProxy(b core.Batch, r *core.Recorder) {
 			c.CC = []string{c.Kind}
 		case "public|max-age=2":
 			c.CC = []string{"public", "max-age=2"}
+		case "max-age=2+date-ahead":
+			c.CC, c.DateSkew = []string{"max-age=2"}, 10*time.Minute
+		case "max-age=2+date-behind":
+			c.CC, c.DateSkew = []string{"max-age=2"}, -30*time.Second
 		case "expires+2s":
 			c.ExpIn = 2 * time.Second
 		case "expires+3s":
@@ -366,6 +374,11 @@ func c03history(r *core.Recorder, p *rig.ProxyRig, o *rig.Origin, mode rig.Mode,
 					// Age / ttl consistency
 					lo := time.Duration(resp.Call-store.Ret) / time.Second
 					hi := time.Duration(resp.Ret-store.Call)/time.Second + 2
+					if c.DateSkew < 0 {
+						// RFC 9111: the age already apparent when the response was received (receipt time - Date) counts
+						lo += -c.DateSkew/time.Second - 1
+						hi += -c.DateSkew/time.Second + 1
+					}
 					if a, err := strconv.Atoi(pr.Age); err != nil || int64(a) < int64(lo) || int64(a) > int64(hi) {
 						viol("age-inconsistent", fmt.Sprintf("Age=%q, but the entry was stored between %d and %d s ago", pr.Age, lo, hi))
 					}
@@ -457,7 +470,7 @@ func init() {
 		ID:    "C03",
 		Level: "exploration",
 		Rule: "function level: header sets of C04's generator plus max-age=N with N in 12 values up to 2^63-1 in 5 decorations x force x default in {40ms,1s,1h}: GetExpiresOrDefault is called between two clock reads and must land in [t0+L, t1+L] (or equal the Expires date, or be <= now for an unparseable Expires). " +
-			"proxy level: resources of 12 kinds (max-age=1 / MAX-AGE=1 / split lines max-age=2 / Expires +2 s,+3 s / none / garbage or '0' Expires / max-age with past Expires / no-store / max-age=0) under the 4 ignore x force policies (switched at run time) with defaults 150/300 ms, one sequential client each: store, probe at 0.25 L, probe after L; " +
+			"proxy level: resources of 14 kinds (max-age=2 with the origin's Date 10 min ahead / 30 s behind, max-age=1 / MAX-AGE=1 / split lines max-age=2 / Expires +2 s,+3 s / none / garbage or '0' Expires / max-age with past Expires / no-store / max-age=0) under the 4 ignore x force policies (switched at run time) with defaults 150/300 ms, one sequential client each: store, probe at 0.25 L, probe after L; " +
 			"oracles: no-contact <=> HIT label; a probe sent after store.return+L(+1 s for date resolution) must contact the origin; Age and ttl inside the interval implied by the recorded windows. Probes whose windows straddle a boundary are not judged. Non-trivial = distinct (kind, policy, transport) with a judged after-expiry probe.",
 		Assumptions: []string{"the implementation reads the wall clock itself; verdicts are issued only when the recorded send/receive windows make them certain under any delay",
 			"duplicate/invalid max-age forms have no lifetime fixed by the statement", "revalidating early (before the lifetime is over) is not a C03 violation"},
